@@ -516,6 +516,9 @@ func cmdRaceArm(a []string) int {
 		if i := strings.Index(rep, "WARNING: DATA RACE"); i >= 0 {
 			rep = rep[i:]
 		}
+		if len(rep) > 6000 {
+			rep = rep[:6000] // the two stacks are at the top of the report
+		}
 		sc["violation"] = map[string]interface{}{"oracle": "C09.data-race", "property": "C09", "message": "the Go race detector reported a data race (or the runtime a concurrent map access) while goroutines created and executed instances of one library", "log_tail": strings.Split(tailOf(rep, 6000), "\n")}
 		b, _ := json.MarshalIndent(sc, "", " ")
 		dir := filepath.Join(vd, "replays", "C09")
